@@ -41,6 +41,7 @@ func init() {
 
 type c09Inst interface {
 	Feed(p []byte) (out []byte, err error, meta string)
+	Meta() string // the receiver's metadata as it reads now
 	Head(p []byte) bool
 	Tail(m bool, p []byte) bool
 	Retained() ([][]byte, bool)
@@ -58,6 +59,7 @@ type c09Kind struct {
 type instH264 struct{ p *codecs.H264Packet }
 
 func (i instH264) Feed(p []byte) ([]byte, error, string) { o, e := i.p.Unmarshal(p); return o, e, "" }
+func (i instH264) Meta() string                          { return "" }
 func (i instH264) Head(p []byte) bool                    { return i.p.IsPartitionHead(p) }
 func (i instH264) Tail(m bool, p []byte) bool            { return i.p.IsPartitionTail(m, p) }
 func (i instH264) Retained() ([][]byte, bool)            { return hookRetainedH264Packet(i.p) }
@@ -66,8 +68,9 @@ type instAV1D struct{ p *codecs.AV1Depacketizer }
 
 func (i instAV1D) Feed(p []byte) ([]byte, error, string) {
 	o, e := i.p.Unmarshal(p)
-	return o, e, fmt.Sprintf("Z%v Y%v N%v", i.p.Z, i.p.Y, i.p.N)
+	return o, e, i.Meta()
 }
+func (i instAV1D) Meta() string               { return fmt.Sprintf("Z%v Y%v N%v", i.p.Z, i.p.Y, i.p.N) }
 func (i instAV1D) Head(p []byte) bool         { return i.p.IsPartitionHead(p) }
 func (i instAV1D) Tail(m bool, p []byte) bool { return i.p.IsPartitionTail(m, p) }
 func (i instAV1D) Retained() ([][]byte, bool) { return hookRetainedAV1(i.p) }
@@ -89,6 +92,7 @@ func (i *instAV1P) Feed(p []byte) ([]byte, error, string) {
 	}
 	return o, e2, fmt.Sprint(len(obus), n)
 }
+func (i *instAV1P) Meta() string               { return "" }
 func (i *instAV1P) Head(p []byte) bool         { return true }
 func (i *instAV1P) Tail(m bool, p []byte) bool { return m }
 func (i *instAV1P) Retained() ([][]byte, bool) { return nil, false }
@@ -97,8 +101,11 @@ type instVP8 struct{ p *codecs.VP8Packet }
 
 func (i instVP8) Feed(p []byte) ([]byte, error, string) {
 	o, e := i.p.Unmarshal(p)
+	return o, e, i.Meta()
+}
+func (i instVP8) Meta() string {
 	v := i.p
-	return o, e, fmt.Sprintf("X%d N%d S%d PID%d I%d L%d T%d K%d pic%d tl0 %d tid%d y%d key%d pl%s", v.X, v.N, v.S, v.PID, v.I, v.L, v.T, v.K, v.PictureID, v.TL0PICIDX, v.TID, v.Y, v.KEYIDX, fw.Hex(v.Payload))
+	return fmt.Sprintf("X%d N%d S%d PID%d I%d L%d T%d K%d pic%d tl0 %d tid%d y%d key%d pl%s", v.X, v.N, v.S, v.PID, v.I, v.L, v.T, v.K, v.PictureID, v.TL0PICIDX, v.TID, v.Y, v.KEYIDX, fw.Hex(v.Payload))
 }
 func (i instVP8) Head(p []byte) bool         { return i.p.IsPartitionHead(p) }
 func (i instVP8) Tail(m bool, p []byte) bool { return i.p.IsPartitionTail(m, p) }
@@ -108,8 +115,11 @@ type instVP9 struct{ p *codecs.VP9Packet }
 
 func (i instVP9) Feed(p []byte) ([]byte, error, string) {
 	o, e := i.p.Unmarshal(p)
+	return o, e, i.Meta()
+}
+func (i instVP9) Meta() string {
 	v := i.p
-	return o, e, fmt.Sprintf("I%v P%v L%v F%v B%v E%v V%v Z%v pic%d tid%d U%v sid%d D%v pdiff%v tl0 %d NS%d Y%v G%v NG%d W%v H%v pgtid%v pgu%v pgpdiff%v pl%s",
+	return fmt.Sprintf("I%v P%v L%v F%v B%v E%v V%v Z%v pic%d tid%d U%v sid%d D%v pdiff%v tl0 %d NS%d Y%v G%v NG%d W%v H%v pgtid%v pgu%v pgpdiff%v pl%s",
 		v.I, v.P, v.L, v.F, v.B, v.E, v.V, v.Z, v.PictureID, v.TID, v.U, v.SID, v.D, v.PDiff, v.TL0PICIDX, v.NS, v.Y, v.G, v.NG, v.Width, v.Height, v.PGTID, v.PGU, v.PGPDiff, fw.Hex(v.Payload))
 }
 func (i instVP9) Head(p []byte) bool         { return i.p.IsPartitionHead(p) }
@@ -161,6 +171,9 @@ type instH265 struct{ p *codecs.H265Packet }
 
 func (i instH265) Feed(p []byte) ([]byte, error, string) {
 	o, e := i.p.Unmarshal(p)
+	return o, e, i.Meta()
+}
+func (i instH265) Meta() string {
 	m := "none"
 	switch v := i.p.Packet().(type) {
 	case *codecs.H265SingleNALUnitPacket:
@@ -172,7 +185,7 @@ func (i instH265) Feed(p []byte) ([]byte, error, string) {
 	case *codecs.H265PACIPacket:
 		m = metaPACI(v)
 	}
-	return o, e, m
+	return m
 }
 func (i instH265) Head(p []byte) bool         { return i.p.IsPartitionHead(p) }
 func (i instH265) Tail(m bool, p []byte) bool { return i.p.IsPartitionTail(m, p) }
@@ -180,7 +193,10 @@ func (i instH265) Retained() ([][]byte, bool) { return nil, false }
 
 type instForm struct {
 	feed func(p []byte) ([]byte, error, string)
+	meta func() string
 }
+
+func (i instForm) Meta() string                          { return i.meta() }
 
 func (i instForm) Feed(p []byte) ([]byte, error, string) { return i.feed(p) }
 func (i instForm) Head(p []byte) bool                    { return (&codecs.H265Packet{}).IsPartitionHead(p) }
@@ -191,8 +207,9 @@ type instOpus struct{ p *codecs.OpusPacket }
 
 func (i instOpus) Feed(p []byte) ([]byte, error, string) {
 	o, e := i.p.Unmarshal(p)
-	return o, e, fw.Hex(i.p.Payload)
+	return o, e, i.Meta()
 }
+func (i instOpus) Meta() string               { return fw.Hex(i.p.Payload) }
 func (i instOpus) Head(p []byte) bool         { return i.p.IsPartitionHead(p) }
 func (i instOpus) Tail(m bool, p []byte) bool { return i.p.IsPartitionTail(m, p) }
 func (i instOpus) Retained() ([][]byte, bool) { return nil, false }
@@ -210,34 +227,34 @@ var c09Kinds = []c09Kind{
 	{"h265-donl", "h265", 0, func() c09Inst { p := &codecs.H265Packet{}; p.WithDONL(true); return instH265{p} }},
 	{"h265-single", "h265", 0, func() c09Inst {
 		v := &codecs.H265SingleNALUnitPacket{}
-		return instForm{func(p []byte) ([]byte, error, string) { o, e := v.Unmarshal(p); return o, e, metaSingle(v) }}
+		return instForm{func(p []byte) ([]byte, error, string) { o, e := v.Unmarshal(p); return o, e, metaSingle(v) }, func() string { return metaSingle(v) }}
 	}},
 	{"h265-single-donl", "h265", 0, func() c09Inst {
 		v := &codecs.H265SingleNALUnitPacket{}
 		v.WithDONL(true)
-		return instForm{func(p []byte) ([]byte, error, string) { o, e := v.Unmarshal(p); return o, e, metaSingle(v) }}
+		return instForm{func(p []byte) ([]byte, error, string) { o, e := v.Unmarshal(p); return o, e, metaSingle(v) }, func() string { return metaSingle(v) }}
 	}},
 	{"h265-ap", "h265", 0, func() c09Inst {
 		v := &codecs.H265AggregationPacket{}
-		return instForm{func(p []byte) ([]byte, error, string) { o, e := v.Unmarshal(p); return o, e, metaAP(v) }}
+		return instForm{func(p []byte) ([]byte, error, string) { o, e := v.Unmarshal(p); return o, e, metaAP(v) }, func() string { return metaAP(v) }}
 	}},
 	{"h265-ap-donl", "h265", 0, func() c09Inst {
 		v := &codecs.H265AggregationPacket{}
 		v.WithDONL(true)
-		return instForm{func(p []byte) ([]byte, error, string) { o, e := v.Unmarshal(p); return o, e, metaAP(v) }}
+		return instForm{func(p []byte) ([]byte, error, string) { o, e := v.Unmarshal(p); return o, e, metaAP(v) }, func() string { return metaAP(v) }}
 	}},
 	{"h265-fu", "h265", 0, func() c09Inst {
 		v := &codecs.H265FragmentationUnitPacket{}
-		return instForm{func(p []byte) ([]byte, error, string) { o, e := v.Unmarshal(p); return o, e, metaFU(v) }}
+		return instForm{func(p []byte) ([]byte, error, string) { o, e := v.Unmarshal(p); return o, e, metaFU(v) }, func() string { return metaFU(v) }}
 	}},
 	{"h265-fu-donl", "h265", 0, func() c09Inst {
 		v := &codecs.H265FragmentationUnitPacket{}
 		v.WithDONL(true)
-		return instForm{func(p []byte) ([]byte, error, string) { o, e := v.Unmarshal(p); return o, e, metaFU(v) }}
+		return instForm{func(p []byte) ([]byte, error, string) { o, e := v.Unmarshal(p); return o, e, metaFU(v) }, func() string { return metaFU(v) }}
 	}},
 	{"h265-paci", "h265", 0, func() c09Inst {
 		v := &codecs.H265PACIPacket{}
-		return instForm{func(p []byte) ([]byte, error, string) { o, e := v.Unmarshal(p); return o, e, metaPACI(v) }}
+		return instForm{func(p []byte) ([]byte, error, string) { o, e := v.Unmarshal(p); return o, e, metaPACI(v) }, func() string { return metaPACI(v) }}
 	}},
 	{"opus", "opus", 0, func() c09Inst { return instOpus{&codecs.OpusPacket{}} }},
 	// zero-allocation variants: panic-only
@@ -360,6 +377,38 @@ func (s *c09Session) feed(c *fw.Ctx, p []byte, r *fw.Rand) bool {
 			return false
 		}
 		c.Count("reuse_pairs_equal", 1)
+		if errF == nil && (r == nil || r.Chance(1, 2)) {
+			// the predicates are queries: asked about OTHER payloads they change neither what Unmarshal returned nor the metadata the receiver shows
+			keepOut := append([]byte(nil), outA...)
+			q1 := append([]byte(nil), p...)
+			for k := 0; k < len(q1) && k < 4; k++ {
+				q1[k] ^= 0xFF
+			}
+			q2 := append([]byte(nil), p...)
+			if len(q2) > 0 {
+				q2[0] ^= 0x10
+			}
+			if pv, st := fw.Guard(func() {
+				for _, q := range [][]byte{q1, q2, nil} {
+					s.a.Head(q)
+					s.a.Tail(true, q)
+					s.a.Tail(false, q)
+				}
+			}); pv != nil {
+				c.Fail("C09/"+name+"/panic/IsPartitionHeadOrTail/"+fw.PanicFunc(st), fmt.Sprintf("IsPartitionHead/IsPartitionTail panicked: %v", pv), wit("stack", st))
+				return false
+			}
+			if m2 := s.a.Meta(); m2 != metaF {
+				c.Fail("C09/"+name+"/reuse/metadata-changed-by-IsPartitionHead-or-Tail", "after IsPartitionHead/IsPartitionTail calls about other payloads the receiver shows other metadata than a fresh receiver that decoded the same payload",
+					wit("reused", fw.Trunc(m2, 600), "fresh", fw.Trunc(metaF, 600)))
+				return false
+			}
+			if !bytes.Equal(outA, keepOut) {
+				c.Fail("C09/"+name+"/result-changed-by-IsPartitionHead-or-Tail", "the bytes returned by Unmarshal changed during IsPartitionHead/IsPartitionTail calls", wit())
+				return false
+			}
+			c.Count("metadata_stable_across_predicate_calls", 1)
+		}
 	case 1:
 		inB := cp()
 		var outB []byte
